@@ -642,6 +642,34 @@ class Translator:
                 continue
             if isinstance(s, ast.Pass):
                 continue
+            if isinstance(s, ast.For) and len(s.orelse) == 1 and \
+                    isinstance(s.orelse[0], ast.Assign) and \
+                    len(s.body) == 1:
+                # the search loop the loader normalises `x = next((E for ..
+                # in T if C), D)` into: read it back as that assignment
+                inner, ifs = s.body[0], []
+                while isinstance(inner, ast.If) and not inner.orelse and \
+                        len(inner.body) in (1, 2):
+                    ifs.append(inner.test)
+                    if len(inner.body) == 2:
+                        break
+                    inner = inner.body[0]
+                if isinstance(inner, ast.If) and len(inner.body) == 2 and \
+                        isinstance(inner.body[0], ast.Assign) and \
+                        isinstance(inner.body[1], ast.Break) and \
+                        ast.dump(inner.body[0].targets[0]) == ast.dump(
+                            s.orelse[0].targets[0]):
+                    gen = ast.GeneratorExp(
+                        elt=inner.body[0].value,
+                        generators=[ast.comprehension(
+                            target=s.target, iter=s.iter, ifs=ifs,
+                            is_async=0)])
+                    call = ast.Call(func=ast.Name(id='next', ctx=ast.Load()),
+                                    args=[gen, s.orelse[0].value],
+                                    keywords=[])
+                    s = ast.copy_location(ast.Assign(
+                        targets=[s.orelse[0].targets[0]], value=call), s)
+                    ast.fix_missing_locations(s)
             if isinstance(s, ast.Assign) and len(s.targets) == 1 and \
                     isinstance(s.targets[0], ast.Name) and \
                     self._first_match(s.value, env, mod) is not None:
